@@ -2,6 +2,7 @@ use crate::line::{LineV, blank_line, blank_cells, cleared, inserted, deleted};
 use crate::buffer::{min_int, max_int, unwrapped, erase_extent, erase_unwraps, erase_touches_row, lemma_erased_rows_unchanged, ScrollbackLimit};
 use crate::tabs::{tabs_sorted, default_tabs, mult8_in, tabs_below, tabs_upto, lemma_tabs_below_bounds};
 use crate::charset::translate_spec;
+use crate::pen::{sgr_upto, apply_sgr};
 use crate::MEM_MAX;
 
 impl vstd::std_specs::cmp::PartialEqSpecImpl for BufferType {
@@ -140,7 +141,7 @@ impl Terminal {
     /// [C15] the flags of `o` plus those of rows r0..r1
     pub open spec fn dirty_added(&self, o: Terminal, r0: int, r1: int) -> bool {
         &&& self.dirty_lines.0@.len() == o.dirty_lines.0@.len()
-        &&& forall|r: int| 0 <= r < o.dirty_lines.0@.len() ==> (#[trigger] self.dirty(r)) == (o.dirty(r) || r0 <= r < r1)
+        &&& forall|r: int| 0 <= r < o.dirty_lines.0@.len() ==> (#[trigger] self.dirty_lines.0@[r]) == (o.dirty_lines.0@[r] || r0 <= r < r1)
     }
 
     /// [C06] the rows IL/DL act on: from the cursor down to the bottom margin, or to the last
@@ -152,7 +153,7 @@ impl Terminal {
     /// [C15] every view row that differs from `o`'s is flagged, and no flag is lost
     pub open spec fn dirty_sound(&self, o: Terminal) -> bool {
         &&& self.dirty_lines.0@.len() == o.dirty_lines.0@.len()
-        &&& forall|r: int| 0 <= r < o.rows ==> (#[trigger] self.dirty(r)) || (!o.dirty(r) && self.buffer.row(r).cells@ == o.buffer.row(r).cells@)
+        &&& forall|r: int| 0 <= r < o.rows ==> (#[trigger] self.dirty_lines.0@[r]) || (!o.dirty_lines.0@[r] && self.buffer.row(r).cells@ == o.buffer.row(r).cells@)
     }
 
     /// [C05] where an upward move of n from `row` ends
@@ -226,9 +227,9 @@ pub proof fn lemma_dirty_sound_trans(o: Terminal, m: Terminal, f: Terminal)
     ensures
         f.dirty_sound(o),
 {
-    assert forall|r: int| 0 <= r < o.rows implies (#[trigger] f.dirty(r)) || (!o.dirty(r) && f.buffer.row(r).cells@ == o.buffer.row(r).cells@) by {
-        assert(f.dirty(r) || (!m.dirty(r) && f.buffer.row(r).cells@ == m.buffer.row(r).cells@));
-        assert(m.dirty(r) || (!o.dirty(r) && m.buffer.row(r).cells@ == o.buffer.row(r).cells@));
+    assert forall|r: int| 0 <= r < o.rows implies (#[trigger] f.dirty_lines.0@[r]) || (!o.dirty_lines.0@[r] && f.buffer.row(r).cells@ == o.buffer.row(r).cells@) by {
+        assert(f.dirty_lines.0@[r] || (!m.dirty_lines.0@[r] && f.buffer.row(r).cells@ == m.buffer.row(r).cells@));
+        assert(m.dirty_lines.0@[r] || (!o.dirty_lines.0@[r] && m.buffer.row(r).cells@ == o.buffer.row(r).cells@));
     }
 }
 
@@ -240,7 +241,34 @@ pub proof fn lemma_dirty_sound_same(o: Terminal, f: Terminal)
     ensures
         f.dirty_sound(o),
 {
-    assert forall|r: int| 0 <= r < o.rows implies (#[trigger] f.dirty(r)) || (!o.dirty(r) && f.buffer.row(r).cells@ == o.buffer.row(r).cells@) by {
-        assert(f.dirty(r) == o.dirty(r));
+    assert forall|r: int| 0 <= r < o.rows implies (#[trigger] f.dirty_lines.0@[r]) || (!o.dirty_lines.0@[r] && f.buffer.row(r).cells@ == o.buffer.row(r).cells@) by {
+        assert(f.dirty_lines.0@[r] == o.dirty_lines.0@[r]);
     }
+}
+
+/// [C04,KF] FINDING F1 (fails on the pinned tree, listed in known_findings.txt): when the deferred
+/// wrap happens on a bottom margin that is not the last row of the screen, the row the cursor
+/// left must be marked soft-wrapped (C04: "marks the row it left as soft-wrapped").
+/// Buffer::scroll_up clears the mark of the last row of a range that ends above the last row.
+pub proof fn finding_c04_wrap_mark_inner(o: Terminal, f: Terminal, ch: char)
+    requires
+        o.wf(),
+        post_print(o, f, ch),
+        o.print_scrolls(),
+        o.bottom_margin < o.rows - 1,
+        o.top_margin < o.bottom_margin,
+    ensures
+        f.buffer.row(o.bottom_margin - 1).wrapped,
+{
+}
+
+/// [C02] the invariant does not mention the pen or the mode flags
+pub proof fn lemma_wf_frame(o: Terminal, f: Terminal, m: Fm)
+    requires
+        o.wf(),
+        f.frame(o, m),
+        !m.cursor && !m.buffer && !m.dirty && !m.tabs && !m.margins && !m.saved && !m.charsets && !m.other && !m.geom,
+    ensures
+        f.wf(),
+{
 }
